@@ -82,6 +82,20 @@ def table : List ((String × String × String × Nat × String) × Why) := [
   (("proxycore.roundRobinQueryPlan.Next", "index", "p.hosts[(p.offset%l+p.index)%l]", 0, "!p.index >= l"), .guard "planNext_no_panic")
 ]
 
+/-- what may be written into each untyped container (sync.Map, atomic.Value, lru.Cache): the static
+types of the arguments at every write site.  The single-value type assertions on what is read back
+(`key.(*client)`, `val.(preparedMetadata)`, `pool.(*connPool)`, `request.(Request)`,
+`l.hosts.Load().([]*Host)`, `val.(*proxycore.PreparedEntry)`) assert exactly these types. -/
+def containerTypes : List (String × String) := [
+  ("p.eventClients", "*proxy.client , struct{}"),
+  ("c.proxy.preparedMetadata", "[16]byte , proxy.preparedMetadata"),
+  ("lb.hosts", "[]*proxycore.Host"),
+  ("l.hosts", "[]*proxycore.Host"),
+  ("s.pools", "string , *proxycore.connPool"),
+  ("p.pending", "int16 , proxycore.Request"),
+  ("d.cache", "string , *proxycore.PreparedEntry")
+]
+
 /-- the scanner's generated state machine: every partial operation is `data[p]` (each dominated by
 ragel's `p == pe` end-of-input test, and exercised by the `lex` stream on every prefix class) or
 the token slice `l.data[ts:te]` with `0 ≤ ts ≤ te ≤ len` maintained by the scanner -/
